@@ -80,7 +80,56 @@ def sk_slot_in_loop(g):
     return {"classes": {"c0": {"template": tmpl, "data": {}, "inject": []}}, "page": [["comp", "c0", {}, ["fills", fills]], ["comp", "c0", {}, None]], "page_ctx": {}}
 
 
-SKELETONS = [sk_default_in_foreign_context, sk_forwarding, sk_same_name_three_levels, sk_root_chain, sk_slot_in_loop]
+def sk_default_passed_on(g):
+    """the slot's original content handed on to another component: {% fill "b" default="f" %}{% component "card" %}{{ f }}
+    {% endcomponent %}{% endfill %} where the slot sits in a loop and its default content reads the loop variable and
+    holds a component - at page level or inside another component's template"""
+    rng = g.rng
+    v = f"v{g.newsite()}"
+    default = [_t(g), ["var", v]]
+    if rng.random() < 0.7:
+        default.append(["comp", "c2", {}, None])
+    owner = [["for", v, rng.choice(["ab", "abc", "a"]), g.newsite(), [["slot", ["lit", "b"], {}, default, {"k": ["lit", f"S{g.newsite()}"]}]]]]
+    card = [_t(g), ["slot", ["lit", "a"], {"default": True}, [_t(g)], {}]]
+    leaf = [_t(g)]
+    ref = ["defaultref", "f"]
+    r = rng.random()
+    if r < 0.4:
+        inner_body = ["implicit", [ref, _t(g)]]
+    elif r < 0.8:
+        inner_body = ["fills", [["fill", ["lit", "a"], [_t(g), ref], None, None]]]
+    else:
+        inner_body = ["implicit", [["comp", "c1", {}, ["implicit", [ref]]]]]
+    fill_body = [["comp", "c1", {}, inner_body]]
+    if rng.random() < 0.5:
+        fill_body.append(["defaultref", "f"])
+    use = ["comp", "c0", {}, ["fills", [["fill", ["lit", "b"], fill_body, "d" if rng.random() < 0.5 else None, "f"]]]]
+    classes = {"c0": {"template": owner, "data": {}, "inject": []}, "c1": {"template": card, "data": {}, "inject": []}, "c2": {"template": leaf, "data": {}, "inject": []}}
+    if rng.random() < 0.5:
+        return {"classes": classes, "page": [use], "page_ctx": {}}
+    # the same, written in the template of another component
+    classes = {"c3": {"template": [_t(g), use], "data": {}, "inject": []}, **classes}
+    return {"classes": {k: classes[k] for k in ("c3", "c0", "c1", "c2")}, "page": [["comp", "c3", {}, None]], "page_ctx": {}}
+
+
+def sk_sibling_fills(g):
+    """two fills of one component where rendering the first reaches the second (default content of slot b holds slot c):
+    the slot data / default aliases of the first fill are not variables of the second"""
+    owner = [["slot", ["lit", "b"], {}, [_t(g), ["slot", ["lit", "c"], {}, [_t(g)], {"k": ["lit", f"S{g.newsite()}"]}]], {"k": ["lit", f"S{g.newsite()}"]}]]
+    fills = [
+        ["fill", ["lit", "b"], [_t(g), ["defaultref", "g"], ["dataref", "d", "k"]], "d", "g"],
+        # reads d / e without declaring them: must not see the sibling's aliases (its own data alias is e)
+        ["fill", ["lit", "c"], [_t(g), ["dataref", "d", "k"], ["dataref", "e", "k"]], "e" if g.rng.random() < 0.5 else None, None],
+    ]
+    g.rng.shuffle(fills)
+    use = ["comp", "c0", {}, ["fills", fills]]
+    classes = {"c0": {"template": owner, "data": {}, "inject": []}}
+    if g.rng.random() < 0.5:
+        return {"classes": classes, "page": [use], "page_ctx": {}}
+    return {"classes": {"c1": {"template": [_t(g), use], "data": {}, "inject": []}, "c0": classes["c0"]}, "page": [["comp", "c1", {}, None]], "page_ctx": {}}
+
+
+SKELETONS = [sk_default_in_foreign_context, sk_forwarding, sk_same_name_three_levels, sk_root_chain, sk_slot_in_loop, sk_default_passed_on, sk_sibling_fills]
 
 
 def decorate(g, prog):
